@@ -32,6 +32,17 @@ def domain(width):
                 ir = D.make_ir([("alpha", a), ("beta", b)], {"typ": typ, "doc": words(pl, "r")} if (si + pi) % 2 else None,
                                summary=words(sl, "s") + ".")
                 irs.append(("w.s%d.p%d.%s" % (si, pi, "long" if typ != "int" else "int"), ir))
+    # a fine sweep of prose lengths around the width: the default sentence ("Defaults to <v>") must be allowed to break anywhere
+    def exact(n, stem):
+        t = words(n, stem)
+        return (t[:n] if len(t) >= n else t + "x" * (n - len(t))).rstrip()
+
+    for delta in range(0, 34):
+        a = D.atom("alpha", "int", None, 7)
+        a["doc"] = exact(w - 40 + delta, "p")
+        b = D.atom("beta", "str", None, "mnist")
+        b["doc"] = exact(w - 44 + delta, "q")
+        irs.append(("w.fine%d" % delta, D.make_ir([("alpha", a), ("beta", b)], None, summary="Summary.")))
     return irs
 
 
